@@ -14,6 +14,7 @@ from hypothesis import strategies as st
 
 import cddsim
 from cddsim import gen, ops, proc, seams
+from cddsim import hyp
 from cddsim.hyp import SimResult, digest_of, explore
 from cddsim.runner import load_known
 from cddsim.world import SimWorld
@@ -422,6 +423,8 @@ def simulate(plan, enumerate_all=None):
             fault = None
             last = ci == len(plan["cmds"]) - 1
             do_enum = bool(plan.get("enum")) and last if enumerate_all is None else (enumerate_all and last)
+            if hyp.SHRINKING[0]:
+                do_enum = False
             reh_events = None
             if cmd.get("fault") or do_enum:
                 # rehearsal on the same absolute paths: learn the seam calls of the fault-free run
@@ -431,7 +434,14 @@ def simulate(plan, enumerate_all=None):
                 world.restore(cp)
                 fault = _resolve_fault(cmd.get("fault"), reh_events)
             if do_enum and reh_events:
-                res.violations += _enumerate(world, plan, cmd, op, out_rel, cp, reh_events, stats, bump)
+                for x in _enumerate(world, plan, cmd, op, out_rel, cp, reh_events, stats, bump):
+                    # concrete replay: the same plan with this fault on the last command, no enumeration
+                    p2 = dict(plan, enum=False)
+                    p2["cmds"] = [dict(c) for c in plan["cmds"]]
+                    p2["cmds"][-1]["fault"] = x.pop("enum_fault")
+                    x["final"] = True
+                    x["trace"] = {"kind": "c20-plan", "plan": p2}
+                    res.violations.append(x)
                 world.restore(cp)
             before = world.snapshot(with_mtime=True)
             _purge_pkg(pkg)
@@ -565,22 +575,24 @@ def work(task):
     known = load_known(ID)
     strat = plans(enum_every=5 if task["tier"] == "quick" else 2, enum_cap=30 if task["tier"] == "quick" else None)
     out = explore(strat, simulate, task["seed"], task["n"], known, batch=14 if task["tier"] == "quick" else 50)
-    fixed = []
     for v in out["violations"]:
-        # an enumerated-fault violation replays through the plan with the concrete fault on the last command
-        if v.get("enum_fault"):
-            tr = v["trace"]
-            p = dict(tr["plan"])
-            cmds = [dict(c) for c in p["cmds"]]
-            cmds[-1]["fault"] = dict(v["enum_fault"])
-            p["cmds"] = cmds
-            p["enum"] = False
-            tr = dict(tr, plan=p)
-            v = dict(v, trace=tr)
-            v.pop("enum_fault", None)
-        fixed.append(v)
-    out["violations"] = fixed
+        if v.get("final"):
+            v["trace"] = _drop_commands(v)
     return out
+
+
+def _drop_commands(v):
+    """Minimise a concrete (enumerated-fault) history: drop earlier commands while the clause still fails."""
+    tr = v["trace"]
+    p = tr["plan"]
+    i = 0
+    while len(p["cmds"]) > 1 and i < len(p["cmds"]) - 1:
+        q = dict(p, cmds=p["cmds"][:i] + p["cmds"][i + 1:])
+        if any(x["clause"] == v["clause"] for x in simulate(q).violations):
+            p = q
+        else:
+            i += 1
+    return dict(tr, plan=p)
 
 
 def replay(trace):
